@@ -377,12 +377,20 @@ def run_cell(ctx, fn, g, var, cell, fv, consts, float_names):
 def automatic(ctx):
     fn = ctx.prog.func("torrentfile.utils:get_piece_length")
     size = fn.params[0]
+    mc = {}
+    for k, v in fn.module.assigns.items():
+        if len(v) == 1 and fold(v[0], mc) is not None:
+            mc[k] = fold(v[0], mc)
+    _fold = fold
+
+    def fold_c(node, consts=None):
+        return _fold(node, mc)
     rets = [n for n in own_nodes(fn.node) if isinstance(n, ast.Return) and n.value is not None]
     if len(rets) != 1:
         ctx.undecided("C12.2", fn, "expected a single return")
         return
     r = rets[0].value
-    if not (isinstance(r, ast.BinOp) and ((isinstance(r.op, ast.Pow) and fold(r.left) == 2) or (isinstance(r.op, ast.LShift) and fold(r.left) == 1))
+    if not (isinstance(r, ast.BinOp) and ((isinstance(r.op, ast.Pow) and fold_c(r.left) == 2) or (isinstance(r.op, ast.LShift) and fold_c(r.left) == 1))
             and isinstance(r.right, ast.Name)):
         ctx.violated("C12.2", fn, "the automatic piece length is not returned as 2**e / 1 << e: it need not be a power of two", rets[0])
         return
@@ -391,10 +399,10 @@ def automatic(ctx):
     inits, incs, others = [], [], []
     for n in own_nodes(fn.node):
         if isinstance(n, ast.Assign) and any(isinstance(t, ast.Name) and t.id == e for t in n.targets):
-            v = fold(n.value)
+            v = fold_c(n.value)
             (inits if v is not None else others).append((n, v))
         elif isinstance(n, ast.AugAssign) and isinstance(n.target, ast.Name) and n.target.id == e:
-            if isinstance(n.op, ast.Add) and fold(n.value) == 1:
+            if isinstance(n.op, ast.Add) and fold_c(n.value) == 1:
                 incs.append(n)
             else:
                 others.append((n, None))
@@ -420,7 +428,7 @@ def automatic(ctx):
         b = None
         for c in conj:
             if isinstance(c, ast.Compare) and len(c.ops) == 1 and isinstance(c.left, ast.Name) and c.left.id == e:
-                k = fold(c.comparators[0])
+                k = fold_c(c.comparators[0])
                 if k is not None and isinstance(c.ops[0], ast.Lt):
                     b = k
                 elif k is not None and isinstance(c.ops[0], ast.LtE):
@@ -428,7 +436,7 @@ def automatic(ctx):
                 elif k is not None and isinstance(c.ops[0], ast.NotEq):
                     b = k if k >= c0 else None
             elif isinstance(c, ast.Compare) and len(c.ops) == 1 and isinstance(c.comparators[0], ast.Name) and c.comparators[0].id == e:
-                k = fold(c.left)
+                k = fold_c(c.left)
                 if k is not None and isinstance(c.ops[0], ast.Gt):
                     b = k
                 elif k is not None and isinstance(c.ops[0], ast.GtE):
